@@ -51,6 +51,8 @@ J event_to_json(const Event& e) {
         o.set("aliases", ints(e.aliases));
         o.set("rts", ints(e.rts));
         o.set("mode", e.mode);
+        if (e.repeat != 1)
+            o.set("repeat", e.repeat);
         if (e.fork)
             o.set("fork", e.fork);
         if (e.resolve)
@@ -190,6 +192,7 @@ Event event_from_json(const J& o) {
         e.aliases = o.at("aliases").ints();
     if (o.has("rts"))
         e.rts = o.at("rts").ints();
+    e.repeat = (int)o.geti("repeat", 1);
     e.fork = (int)o.geti("fork", 0);
     e.resolve = (int)o.geti("resolve", 0);
     e.final_as = (int)o.geti("final_as", -1);
